@@ -222,9 +222,21 @@ def validity_problems(tc):
         else:
             if not np.all(n.time[e.parent] > n.time[e.child]):
                 P.append("edge parent not older than child")
-            key = list(zip(n.time[e.parent], e.parent, e.child, e.left))
-            if key != sorted(key):
-                P.append("edges not sorted")
+            # data model: non-decreasing parent TIME; all edges of a parent adjacent (parents of equal
+            # time in either id order); within a parent by child id, then left
+            pt = [float(n.time[p]) for p in e.parent]
+            if any(a > b for a, b in zip(pt, pt[1:])):
+                P.append("edges not sorted by parent time")
+            seen_parents, prev = set(), None
+            for p in e.parent:
+                if p != prev:
+                    if p in seen_parents:
+                        P.append("edges of a parent not adjacent")
+                    seen_parents.add(p)
+                    prev = p
+            within = list(zip(e.parent, e.child, e.left))
+            if any(a[0] == b[0] and (a[1], a[2]) > (b[1], b[2]) for a, b in zip(within, within[1:])):
+                P.append("edges of a parent not sorted by child, left")
             seen = {}
             for l, r, c in zip(e.left, e.right, e.child):
                 for (l2, r2) in seen.get(c, []):
